@@ -182,6 +182,7 @@ fn efg_cases(rng: &mut Rng, tree: &HNode, out: &mut Vec<Case>) {
         opts.constant = *rng.pick(&[0.0, 10.0]);
         opts.interior = false;
         opts.share_outcomes = false;
+        opts.number_forms = false;
     }
     let fg = files::write_efg(rng, tree, &opts);
     let t = &fg.text;
